@@ -10,7 +10,10 @@ tier = sys.argv[4] if len(sys.argv) > 4 and sys.argv[3] == "--tier" else "quick"
 tag = f"{prop}_{os.getpid()}"
 vt, rt = f"/tmp/vt_{tag}", f"/tmp/rt_{tag}"
 try:
-    subprocess.check_call(["rsync", "-a", "--exclude", ".scratch", "--exclude", "replays", "--exclude", ".git", "/verif/", vt + "/"])
+    rc = subprocess.call(["rsync", "-a", "--exclude", ".scratch", "--exclude", "replays", "--exclude", ".git", os.environ.get("VERIF_SRC", "/verif") + "/", vt + "/"],
+                         stderr=subprocess.DEVNULL)
+    if rc not in (0, 24):      # 24 = files vanished during the copy (a concurrent lake build): harmless
+        raise SystemExit(f"rsync failed: {rc}")
     subprocess.check_call(["git", "-C", "/repo", "worktree", "add", "-q", "--detach", rt, "HEAD"])
     subprocess.check_call(["git", "-C", rt, "apply", patch])
     env = dict(os.environ, BIOCANTOR_REPO=rt)
